@@ -284,6 +284,7 @@ func optInt64(o OptInt) *int64 {
 type builder struct {
 	e        *Embedding
 	fallback bool
+	literal  bool // units definitions as struct literals (&UnitsDefinition{...}) instead of NewUnits
 }
 
 func (b *builder) intBound(o OptInt) (*int64, error) {
@@ -313,7 +314,40 @@ func (b *builder) units(o OptStr) (*schema.UnitsDefinition, error) {
 	if !o.Some {
 		return nil, nil
 	}
-	return Units(o.V)
+	u, err := Units(o.V)
+	if err != nil || !b.literal {
+		return u, err
+	}
+	return &schema.UnitsDefinition{BaseUnitValue: u.BaseUnitValue, MultipliersValue: u.MultipliersValue}, nil
+}
+
+// BuildLiteralUnits is Build with every units definition written as a struct literal.
+func BuildLiteralUnits(s *Schema, e *Embedding) (*Built, error) {
+	b := &builder{e: e, literal: true}
+	t, _, err := b.build(s)
+	if err != nil {
+		return nil, err
+	}
+	return &Built{Type: t}, nil
+}
+
+// HasUnits reports whether a units definition occurs in the schema.
+func (s *Schema) HasUnits() bool {
+	switch s.Kind {
+	case "int", "float", "enum_int":
+		return s.Units.Some
+	case "list":
+		return s.Items.HasUnits()
+	case "map":
+		return s.Keys.HasUnits() || s.Vals.HasUnits()
+	case "object":
+		for _, p := range s.Props {
+			if p.Type.HasUnits() {
+				return true
+			}
+		}
+	}
+	return false
 }
 
 // build returns the schema and, when it has typed entry points, its typed node.
@@ -597,6 +631,8 @@ func (b *builder) object(s *Schema) (schema.Type, typed, error) {
 		t, n = structObject[catalog.SubPtrs](s.ID, props, s.Typed)
 	case "outer":
 		t, n = structObject[catalog.Outer](s.ID, props, s.Typed)
+	case "strs":
+		t, n = structObject[catalog.Strs](s.ID, props, s.Typed)
 	default:
 		return nil, nil, fmt.Errorf("unknown layout %q", s.Layout)
 	}
